@@ -98,7 +98,11 @@ class RawLib:
         self.has_iqabc = bool(getattr(info, "Iqabc", None))
         self.nmodes = len(info.radius_effective_modes or [])
         src = generate.make_source(info)["dll"]
-        src = src + "\n" + self._wrapper()
+        self._defs = {fn: bool(re.search(r"(^|\s)double\s+%s\s*\(" % fn, src))
+                      for fn in ("form_volume", "shell_volume", "radius_effective", "Iqac", "Iqabc", "Iq", "Iqxy")}
+        self._defs["Fq"] = bool(re.search(r"(^|\s)void\s+Fq\s*\(", src))
+        # double precision build: the library code selects its branches on FLOAT_SIZE
+        src = "#define FLOAT_SIZE 8\n" + src + "\n" + self._wrapper()
         os.makedirs(build_dir, exist_ok=True)
         from sasmodels.generate import tag_source
         base = os.path.join(build_dir, "raw_%s_%s" % (info.id, tag_source(src)))
@@ -134,6 +138,8 @@ class RawLib:
         self.lib.rtm_Iqac.argtypes = [D, D, P]
         self.lib.rtm_Iqabc.restype = D
         self.lib.rtm_Iqabc.argtypes = [D, D, D, P]
+        self.lib.rtm_Iqxy.restype = D
+        self.lib.rtm_Iqxy.argtypes = [D, D, P]
 
     # -- C text ---------------------------------------------------------
     def _args(self, plist):
@@ -160,8 +166,8 @@ class RawLib:
             lines.append("void rtm_Fq(double q, double *F1, double *F2, const double *p)"
                          " { *F1 = 0.0/0.0; *F2 = Iq(q%s%s); }" % (sep, iq_args))
         # volumes
-        has_form = bool(info.form_volume)
-        has_shell = bool(getattr(info, "shell_volume", None))
+        has_form = self._defs["form_volume"] and bool(self.vol_pars)
+        has_shell = self._defs["shell_volume"] and bool(self.vol_pars)
         if has_form:
             lines.append("double rtm_form_volume(const double *p) { return form_volume(%s); }" % vol_args)
         else:
@@ -170,7 +176,7 @@ class RawLib:
             lines.append("double rtm_shell_volume(const double *p) { return shell_volume(%s); }" % vol_args)
         else:
             lines.append("double rtm_shell_volume(const double *p) { return rtm_form_volume(p); }")
-        if self.nmodes:
+        if self.nmodes and self._defs["radius_effective"]:
             vsep = ", " if vol_args else ""
             lines.append("double rtm_radius_effective(int mode, const double *p)"
                          " { return radius_effective(mode%s%s); }" % (vsep, vol_args))
@@ -191,16 +197,23 @@ class RawLib:
         else:
             lines.append("int rtm_valid(const double *p) { return 1; }")
         # oriented functions
-        if getattr(info, "Iqac", None):
+        if self._defs["Iqac"]:
             lines.append("double rtm_Iqac(double qab, double qc, const double *p)"
                          " { return Iqac(qab, qc%s%s); }" % (sep, iq_args))
         else:
             lines.append("double rtm_Iqac(double qab, double qc, const double *p) { return 0.0/0.0; }")
-        if getattr(info, "Iqabc", None):
+        if self._defs["Iqabc"]:
             lines.append("double rtm_Iqabc(double qa, double qb, double qc, const double *p)"
                          " { return Iqabc(qa, qb, qc%s%s); }" % (sep, iq_args))
         else:
             lines.append("double rtm_Iqabc(double qa, double qb, double qc, const double *p) { return 0.0/0.0; }")
+        if self._defs.get("Iqxy") and not [p for p in self.kpars if p.type == "orientation"]:
+            lines.append("double rtm_Iqxy(double qx, double qy, const double *p)"
+                         " { return Iqxy(qx, qy%s%s); }" % (sep, iq_args))
+            self.has_iqxy = True
+        else:
+            lines.append("double rtm_Iqxy(double qx, double qy, const double *p) { return 0.0/0.0; }")
+            self.has_iqxy = False
         return "\n".join(lines) + "\n"
 
     # -- calling -------------------------------------------------------
@@ -242,6 +255,9 @@ class RawLib:
 
     def Iqac(self, qab, qc, v):
         return self.lib.rtm_Iqac(float(qab), float(qc), self._ptr(v))
+
+    def Iqxy(self, qx, qy, v):
+        return self.lib.rtm_Iqxy(float(qx), float(qy), self._ptr(v))
 
     def Iqabc(self, qa, qb, qc, v):
         return self.lib.rtm_Iqabc(float(qa), float(qb), float(qc), self._ptr(v))
